@@ -1,8 +1,8 @@
-\* C05 leg A (endpoint set) thorough: 2 endpoints, 3 advertisements, timeout 3, any number of rounds; every 3rd
+\* C05 leg A (endpoint set) thorough: 2 endpoints, 3 advertisements, timeout 2, any number of rounds; every 3rd
 \* two-round scenario over 2 endpoints to the harness
 SPECIFICATION Spec
 CONSTANTS NEps = 2
-          T = 3
+          T = 2
           MaxRounds = 0
           CaseEps = 2
           CaseStride = 3
